@@ -124,6 +124,46 @@ CHECKS = {
            "the generated code (open finding C03:choice-required), so the full statement C03_full is refuted by a witness and c03_schema is "
            "the part that holds."),
  },
+ "C07": {
+  "category": "proof",
+  "technique": "Lean 4 proof over a shared-state table regenerated from the loader modules (kernel-checked no-read-before-write obligation) + interleaving proof over a hand model of NetworkBuilder + history/interleaving correspondence",
+  "design_ref": "DESIGN.md §5 C07; notes/C07.md",
+  "text": ("translators/glue_extract.py scans loaders/utils/hdf5/nml modules on every run for shared mutable state (module globals, class "
+           "attributes, mutable defaults) and summarises, per loader entry point and builder handler, which shared variables may be read "
+           "before written and which may be written (Gen/Glue.lean). c07_table_ok (kernel decide, per run): no entry reads first a variable "
+           "any entry writes, outside the reviewed memo cache. Generic theorems for every semantics respecting the summaries: "
+           "c07_state_independent, c07_history_independent(_inv), c07_nth_call, c07_all_entries_history_independent, and "
+           "c07_loaders_history_independent for today's table (the result of a call is the same after ANY two histories of calls). "
+           "c07_interleaving_independent / c07_interleaving_summary / c07_builders_independent / c07_world_private: for EVERY interleaving of "
+           "the handler-call sequences of two builders with per-instance tables each builder ends in the state of its solo run; "
+           "c07_shared_tables_witness is the repaired defect. Tied by the translator plus a history oracle (every loader entry point, "
+           "repeated and after other loads, against the same call in a fresh process) and an interleaving correspondence of real "
+           "NetworkBuilder pairs with the Lean model."),
+  "note": ("Trusted: the AST scan (name-based resolution, alias/escape analysis, whitelists; validated by the streams and mutation runs, "
+           "not verified); that the real code Respects the extracted summaries is the translator's claim; state outside the scanned "
+           "modules (warnings, logging, PyTables registry, lxml) not in the table; Model/NetBuilder.lean is a hand model tied by "
+           "correspondence; sequential calls in one process, interleaving at handler-call granularity (no threads)."),
+ },
+ "C08": {
+  "category": "proof",
+  "technique": "Lean 4 proof of a syntactic protection criterion (induction on derivations) + source-to-skeleton translator + fault injection at every file-layer call of the real library vs the Lean fault semantics",
+  "design_ref": "DESIGN.md §5 C08; notes/C08.md",
+  "text": ("For the effect skeleton of every reader/writer entry point (NeuroMLWriter.write, NeuroMLHdf5Writer.write incl. the expanded "
+           "exportHdf5 methods, ArrayMorphWriter.write, NeuroMLHdf5Loader.load [both modes, incl. NeuroMLHdf5Parser.parse/parse_group], "
+           "ArrayMorphLoader.load, NeuroMLLoader.load), extracted from the source on every run, c08_gen_unprotected_subset_known decides "
+           "that every unprotected place is a listed finding; c08_protected_sound / c08_gen_clean prove for every fault point k, every "
+           "exception class and every data-dependent path (oracle) that a protected skeleton ends with the same open handles, the "
+           "document as attached as before, and a raise whenever the fault was delivered; c08_retry: the retried call starts from the "
+           "state of a first call. c08_truncated_incomplete: every strict prefix of the token stream of an element tree (also cut "
+           "inside a token) is not a complete document."),
+  "note": ("Trusted: Lean kernel; the translator (validated: every real file-layer call of every run is labelled with a skeleton site by "
+           "stack inspection and the model run on the skeleton must reproduce calls, outcome, handle and document verdicts); un-expanded "
+           "code (generateDS export, recursive parse_group, start_group/parse_dataset) is modelled as 'any number of non-opening "
+           "file-layer calls, then possibly a raise' - its handle/document neutrality is observed, not proved; handles are a counter, "
+           "document modification a nesting depth; 'lxml rejects an incomplete token stream' is trusted and sampled at every cut tried; "
+           "OS descriptors observed via /proc/self/fd; entry points at default keyword arguments. Open finding "
+           "C08:ArrayMorphWriter.write:doc-changed:id."),
+ },
 }
 
 
